@@ -240,10 +240,8 @@ theorem recLen_dense (cplx : Bool) (col : List Entry) (s : Nat) (tl : List Nat) 
       simpa [h] using this
     rw [Nat.min_eq_left (by omega)]
 
-/-- the dense record of a sparse input is the dense record of the ndarray, as long as the record length does
-not leave the int32 range -/
-theorem encColDenseSp_eq (add : Nat → Nat → Nat) (e : Endian) (A : SpIn) (c : Nat)
-    (hfit : recLen .dense A.cplx (denseCol add A c) < 2147483648) :
+/-- the dense record of a sparse input is the dense record of the ndarray -/
+theorem encColDenseSp_eq (add : Nat → Nat → Nat) (e : Endian) (A : SpIn) (c : Nat) :
     encColDenseSp e A.cplx c (colEntries add A c) = encColDense e A.cplx c (denseCol add A c) := by
   have hidx := nzIdx_denseCol add A c
   cases hi : idxOf (fun r => foundAt add A r c) 0 A.rows with
@@ -253,13 +251,7 @@ theorem encColDenseSp_eq (add : Nat → Nat → Nat) (e : Endian) (A : SpIn) (c 
     simp [encColDense, encColDenseSp, hidx]
   | cons s tl =>
     rw [hi] at hidx
-    have hsorted := (nzIdxFrom_sorted A.cplx (denseCol add A c) 0).1
-    have hlast_mem : (s :: tl).getLast (by simp) ∈ nzIdx A.cplx (denseCol add A c) := by
-      rw [hidx]; exact List.getLast_mem _
-    obtain ⟨x, hx, _⟩ := (mem_nzIdx _ _ _).1 hlast_mem
-    have hlast_lt := (List.getElem?_eq_some_iff.1 hx).1
     rw [encColDense_eq e A.cplx c _ s tl hidx]
-    rw [recLen_dense A.cplx _ s tl hidx hlast_lt] at hfit
     have hce : colEntries add A c = (s :: tl).map fun r => (r, gOf (fun r => foundAt add A r c) r) := by
       rw [colEntries_eq, ceOf_eq, hi]
     have hvec := spVec_eq A.cplx (fun r => foundAt add A r c) A.rows s tl hi
@@ -273,13 +265,7 @@ theorem encColDenseSp_eq (add : Nat → Nat → Nat) (e : Endian) (A : SpIn) (c 
       rw [this]
     simp only [List.map_cons] at hvec
     rw [hlast, hvec]
-    have hw1 : spRecLen ((denseSeg (denseCol add A c) s tl).length * mult A.cplx)
-        = 3 * 4 + (denseSeg (denseCol add A c) s tl).length * mult A.cplx * 8 := by
-      unfold spRecLen wrap32; omega
-    have hw2 : wrap32 (2 * ((denseSeg (denseCol add A c) s tl).length * mult A.cplx))
-        = 2 * ((denseSeg (denseCol add A c) s tl).length * mult A.cplx) := by
-      unfold wrap32; omega
-    rw [hw1, hw2]
+    simp [encColDenseS]
 
 /-! ### all columns -/
 
@@ -326,8 +312,7 @@ theorem isEmpty_false_of_ne {α} (l : List α) : (!l.isEmpty) = false ↔ l = []
   cases l <;> simp
 
 /-- the column loop `for c in cols_with_data` emits what `for c in range(cols)` emits for the ndarray -/
-theorem encColsSp_eq (add : Nat → Nat → Nat) (e : Endian) (lay : Layout) (A : SpIn)
-    (hdom : lay = .dense → ∀ c, c < A.ncols → recLen .dense A.cplx (denseCol add A c) < 2147483648) :
+theorem encColsSp_eq (add : Nat → Nat → Nat) (e : Endian) (lay : Layout) (A : SpIn) :
     encColsSp add e lay A = encCols (encCol e lay A.cplx) 0 ((List.range A.ncols).map (denseCol add A)) := by
   rw [List.range_eq_range', encCols_map_range' (encCol e lay A.cplx) (denseCol add A) encCols (fun _ => rfl)
     (fun _ _ _ => rfl) A.ncols 0]
@@ -335,10 +320,9 @@ theorem encColsSp_eq (add : Nat → Nat → Nat) (e : Endian) (lay : Layout) (A 
   rw [List.range_eq_range']
   have hper : ∀ c, c ∈ List.range' 0 A.ncols →
       encColSp add e lay A c = encCol e lay A.cplx c (denseCol add A c) := by
-    intro c hc
-    have hc' : c < A.ncols := by simpa [List.mem_range'_1] using hc
+    intro c _
     cases lay
-    · exact encColDenseSp_eq add e A c (hdom rfl c hc')
+    · exact encColDenseSp_eq add e A c
     · simp only [encCol, encColSp]; rw [encColBig_S, spStrings_colEntries]
     · simp only [encCol, encColSp]; rw [encColNonbig_S, spStrings_colEntries]
   rw [flatMap_filter_nil]
@@ -351,10 +335,9 @@ theorem encColsSp_eq (add : Nat → Nat → Nat) (e : Endian) (lay : Layout) (A 
 theorem stringsFit_S (cplx : Bool) (col : List Entry) : stringsFit cplx col = stringsFitS cplx (strings cplx col) := rfl
 
 /-- **the binary file of a sparse input is the file of the ndarray it stands for** -/
-theorem encMatWordsSp_eq (add : Nat → Nat → Nat) (e : Endian) (lay : Layout) (name : List Nat) (form : Nat) (A : SpIn)
-    (hdom : lay = .dense → ∀ c, c < A.ncols → recLen .dense A.cplx (denseCol add A c) < 2147483648) :
+theorem encMatWordsSp_eq (add : Nat → Nat → Nat) (e : Endian) (lay : Layout) (name : List Nat) (form : Nat) (A : SpIn) :
     encMatWordsSp add e lay name form A = encMatWords e lay (denseMat add name form A) := by
-  have hcols := encColsSp_eq add e lay A hdom
+  have hcols := encColsSp_eq add e lay A
   unfold encMatWordsSp encMatWords
   simp only [headerWords_G, denseMat, List.length_map, List.length_range]
   cases lay
